@@ -22,5 +22,15 @@ HARNESSES = [
        tiers={"quick": {}, "thorough": {}}, bounds="seed S1 marked as adopted; which of the 9 entry points and its arguments symbolic"),
   dict(COMMON, name="dup_blocks_s2", entry="h_dup_blocks", defines={"SEED": 2}, encoded=DUP, tiers={"quick": {}, "thorough": {}},
        bounds="seed S2 with a name of symbolic length 0..5 and content, a half-full info array; every tma request served by a heap object of exactly the requested size", cost=60),
-]
+  ]
+PIPE_UW = dict({"vp_mini_build_at.%d" % k: 24 for k in range(12)}, **{"strlen.0": 8, "strcpy.0": 8, "strcmp.0": 8, "write.0": 25, "read.0": 25, "hwloc__topology_dup.0": 24, "hwloc__topology_dup.1": 24, "hwloc__topology_dup.2": 24,
+               "hwloc__topology_init.0": 24, "hwloc__topology_filter_init.0": 24, "hwloc_reset_normal_type_depths.0": 24, "hwloc_topology_clear.0": 24,
+               "hwloc_connect_levels.0": 24, "hwloc_connect_levels.1": 24, "hwloc_connect_levels.2": 24, "hwloc_connect_levels.3": 24, "hwloc_connect_levels.4": 24, "hwloc_connect_levels.5": 24,
+               "hwloc_connect_special_levels.0": 24, "hwloc_connect_special_levels.1": 24})
+for incl in (0, 1):
+  HARNESSES.append(dict(src="C19_pipeline.c", env=["vp_alloc.c", "vp_libc.c"], units=["hwloc/bitmap.c", "hwloc/traversal.c", "hwloc/topology.c", "hwloc/distances.c", "hwloc/memattrs.c", "hwloc/cpukinds.c"],
+       name="pipeline_allow" if incl else "pipeline", entry="h_pipeline", defines={"INCL": incl}, unwind=10, unwindset=PIPE_UW, checks="safety", object_bits=12, fs_array=256, timeout=1700,
+       encoded=["hwloc_shmem_topology_get_length", "hwloc_shmem_topology_write", "hwloc_shmem_topology_adopt", "hwloc__topology_disadopt", "hwloc_topology_destroy", "tma_shmem_malloc", "tma_get_length_malloc"] + DUP + (["hwloc_topology_allow"] if incl else []),
+       tiers={"quick": {}, "thorough": {}}, stubs=COMMON["stubs"][:2] + ["topology: the hand-linked 9-object topology of vp_mini.h + a name and a topology info"], assumptions=COMMON["assumptions"],
+       bounds="one concrete topology (9 objects, a name, an info pair%s); the mapping is a heap object of exactly get_length() bytes; page size 8; the run is concrete: CBMC acts as a bounds-checking interpreter of the whole pipeline" % ("; INCLUDE_DISALLOWED with a disallowed PU and node, allow(ALL) on the adopted copy" if incl else ""), cost=100))
 OUTSIDE = ["real mmap protection faults, cross-process address availability", "page sizes other than the stub's", "topologies other than the seeds"]
